@@ -377,15 +377,8 @@ func (db *Database) processPostingsForTerm(
 	for _, p := range postings {
 		doc := &db.Commands[p.docID]
 
-		// Platform filtering (skip if AllPlatforms is enabled)
-		if !options.AllPlatforms && len(doc.Platform) > 0 {
-			if !isPlatformCompatible(doc.Platform, currentPlatform) && !isCrossPlatformTool(doc.Command) {
-				continue
-			}
-		}
-
-		// Pipeline filtering
-		if options.PipelineOnly && !isPipelineCommand(doc) {
+		// Platform and pipeline filtering
+		if !passesFilters(doc, options, currentPlatform) {
 			continue
 		}
 
@@ -575,6 +568,50 @@ func (idx *universalIndex) fieldBM25(tf, dl, avgdl, w, b float64) float64 {
 func bm25IDF(n, df int) float64 {
 	// Okapi BM25 idf with 0.5 adjustments
 	return math.Log((float64(n)-float64(df)+0.5)/(float64(df)+0.5) + 1)
+}
+
+// passesFilters reports whether doc may be returned under the platform and pipeline
+// options: pipeline-only searches return pipeline commands only; unless all platforms are
+// requested, a command that declares platforms must name a platform in force (the platforms
+// asked for, otherwise the host) or, unless cross-platform entries are excluded, be tagged
+// cross-platform or be a recognised cross-platform tool.
+func passesFilters(doc *Command, options SearchOptions, hostPlatform string) bool {
+	if options.PipelineOnly && !isPipelineCommand(doc) {
+		return false
+	}
+	if options.AllPlatforms || len(doc.Platform) == 0 {
+		return true
+	}
+	inForce := options.Platforms
+	if len(inForce) == 0 {
+		inForce = []string{hostPlatform}
+	}
+	for _, current := range inForce {
+		current = canonicalPlatform(current)
+		for _, p := range doc.Platform {
+			if strings.EqualFold(p, current) || checkPlatformVariant(p, current) {
+				return true
+			}
+		}
+	}
+	if options.NoCrossPlatform {
+		return false
+	}
+	for _, p := range doc.Platform {
+		if strings.EqualFold(p, "cross-platform") {
+			return true
+		}
+	}
+	return isCrossPlatformTool(doc.Command)
+}
+
+// canonicalPlatform maps a platform named on the command line to the database's vocabulary.
+func canonicalPlatform(p string) string {
+	p = strings.ToLower(p)
+	if p == "darwin" {
+		return constants.PlatformMacOS
+	}
+	return p
 }
 
 func isPlatformCompatible(platforms []string, current string) bool {
